@@ -11,7 +11,7 @@
                                         shell's own connection and whether AddCmd succeeds through it
      ExitStart(s) ExitEnd(s)            around the shell's client.Close()
    Every hook sits AFTER the effect it reports, so the effects themselves are unlogged internal steps
-   that TLC places: FirstDial, RetryDial, RemoveStale, Accept, ConnDone, Exit, Listen, OpenDb,
+   that TLC places: FirstLstat, FirstDial, RetryLstat, RetryDial, RemoveStale, Accept, ConnDone, Exit, Listen, OpenDb,
    RemoveSock, CloseDb, CloseListener, GiveUp.  sl / dl remember the last logged point of each actor:
    an actor's internal step is enabled only between the two hooks that bracket it in the code.
    Acceptance: high-water mark of l.  SafeHW prunes states violating the properties, so a trace is
@@ -74,7 +74,7 @@ RetryDetected ==
   /\ CASE T.arg = StMissing -> pr[T.s] = "missing"
        [] T.arg = StRefused -> pr[T.s] = "refused"
        [] T.arg = StOK      -> pr[T.s] = "queued" /\ spc[T.s] = "connected"
-       [] T.arg = StOther   -> pr[T.s] = "queued" /\ spc[T.s] = "failed"
+       [] T.arg = StOther   -> pr[T.s] \in {"queued", "gone"} /\ spc[T.s] = "failed"
        [] OTHER -> FALSE
   /\ Adv /\ SetS("retry") /\ pr' = [pr EXCEPT ![T.s] = ""] /\ UNCHANGED <<vars, dl, ex>>
 ShellReturnOK ==
@@ -109,9 +109,11 @@ DaemonReturn == /\ Is("DaemonReturn") /\ ((T.code = 0 /\ dl[T.d] = "closed") \/ 
 \* ---- internal steps, each between the hooks that bracket it
 Internal ==
   \/ \E s \in Shells :
-       \/ sl[s] = "started" /\ FirstDial(s) /\ UNCHANGED tv
+       \/ sl[s] = "started" /\ (FirstLstat(s) \/ FirstDial(s)) /\ UNCHANGED tv
        \/ sl[s] = "before-remove" /\ RemoveStale(s) /\ UNCHANGED tv
-       \/ sl[s] \in {"spawned", "retry"} /\ pr[s] = "" /\ RetryDial(s) /\ pr' = [pr EXCEPT ![s] = Outcome] /\ UNCHANGED <<l, sl, dl, ex>>
+       \/ sl[s] \in {"spawned", "retry"} /\ pr[s] = "" /\ RetryLstat(s)
+          /\ pr' = [pr EXCEPT ![s] = IF sock = 0 THEN "missing" ELSE ""] /\ UNCHANGED <<l, sl, dl, ex>>
+       \/ sl[s] \in {"spawned", "retry"} /\ pr[s] = "" /\ RetryDial(s) /\ pr' = [pr EXCEPT ![s] = DialOutcome] /\ UNCHANGED <<l, sl, dl, ex>>
        \/ ex[s] = "closing" /\ Exit(s) /\ UNCHANGED tv
   \/ \E d \in Daemons :
        \/ dl[d] = "" /\ Listen(d) /\ UNCHANGED tv
@@ -120,9 +122,9 @@ Internal ==
        \/ dl[d] = "before-remove" /\ RemoveSock(d) /\ UNCHANGED tv
        \/ dl[d] = "after-remove" /\ CloseDb(d) /\ UNCHANGED tv
        \/ dl[d] = "before-close" /\ CloseListener(d) /\ UNCHANGED tv
-Next == Reset \/ ShellStart \/ Detected \/ BeforeRemove \/ AfterRemove \/ BeforeSpawn \/ DaemonStart \/ Spawned
+TNext == Reset \/ ShellStart \/ Detected \/ BeforeRemove \/ AfterRemove \/ BeforeSpawn \/ DaemonStart \/ Spawned
         \/ RetryDetected \/ ShellReturnOK \/ ShellReturnErr \/ ExitStart \/ ExitEnd \/ DaemonHook \/ DaemonReturn \/ Internal
-Spec == Init /\ [][Next]_allvars
+Spec == Init /\ [][TNext]_allvars
 
 Safe == ConnectedIsLive /\ OneServerPerSocket /\ ServeWhileClients /\ RemoveOnlyOwn
 HW == TLCSet(1, IF TLCGet(1) > l THEN TLCGet(1) ELSE l)
